@@ -121,9 +121,10 @@ void vf_trig_read(void *a, long val)
 }
 
 /* ================= hooks ================= */
+_Bool g_l_read_locked;            /* counter_ was loaded under mtx since the mutex was (re)acquired */
 void vf_hook_acquired(struct vf_mutex *m)
 {
-  if (vf_L && m == &vf_L->mtx) vf_latch_env();
+  if (vf_L && m == &vf_L->mtx) { vf_latch_env(); g_l_read_locked = 0; }
   if (vf_B && m == &vf_B->mtx) vf_barrier_acquired();
   if (vf_T && (m == &vf_T->triggerLock || m == &vf_T->activeLock)) vf_trig_env();
 }
@@ -153,6 +154,7 @@ void vf_hook_atomic_write(void *a, long o, long n)
     g_arr = g_arr + 1;
     g_my_arr = g_my_arr + 1;
     if (o > 0 && n <= 0) g_dirty = 1;
+    g_l_read_locked = 0;             /* the value read before is no longer current */
   }
   if (vf_T && a == (void *)&vf_T->triggered) {
     __CPROVER_assert(vf_T->triggerLock.excl_me, "[M3] TriggerVariable: `triggered` modified without holding triggerLock");
@@ -184,6 +186,7 @@ void vf_hook_cv_wait(struct vf_cv *c, struct vf_lock *l)
   if (vf_L) {
     __CPROVER_assert(c == &vf_L->cv && l->m == &vf_L->mtx, "[M5] Latch: wait on the wrong condition variable / mutex");
     __CPROVER_assert(g_arr < g_init, "[C10] Latch: cv.wait entered although the count has been reached (would sleep on an open latch)");
+    g_l_read_locked = 0;             /* the mutex is released during the wait */
   }
   if (vf_B) {
     __CPROVER_assert(c == &vf_B->cv && l->m == &vf_B->mtx, "[M5] Barrier: wait on the wrong condition variable / mutex");
@@ -200,7 +203,16 @@ void vf_hook_cv_wait(struct vf_cv *c, struct vf_lock *l)
 #define VF_HOOK_ATOMIC_PRE(a) vf_hook_atomic_pre(a)
 #define VF_HOOK_ATOMIC_WRITE(a, o, n, mo, rmw) vf_hook_atomic_write(a, o, n)
 #define VF_HOOK_NOTIFY(c, all) vf_hook_notify(c, all)
-#define VF_HOOK_ATOMIC_READ(a, val, mo) do { if (vf_T) vf_trig_read(a, val); } while (0)
+void vf_latch_read(void *a)
+{
+  if (vf_L && a == (void *)&vf_L->counter_ && vf_L->mtx.excl_me) {
+    /* while this thread holds mtx nobody can change counter_: re-reading it without having waited
+       in between is a busy wait under the monitor mutex (no arrival can ever get in) */
+    __CPROVER_assert(!g_l_read_locked, "[M5] Latch: counter_ is re-read under mtx without an intervening cv.wait (busy wait while holding the monitor mutex)");
+    g_l_read_locked = 1;
+  }
+}
+#define VF_HOOK_ATOMIC_READ(a, val, mo) do { if (vf_T) vf_trig_read(a, val); vf_latch_read(a); } while (0)
 #define VF_HOOK_CV_WAIT(c, l) vf_hook_cv_wait(c, l)
 ''')
 
@@ -209,7 +221,7 @@ TAGMAP = {
     'L2': 'C09 C10 C11', 'L5': 'C09 C10 C11', 'arith': 'C09 C10', 'noexcept': '',
 }
 
-LATCH_G = 'g_arr, g_my_arr, g_dirty, ' + GHOST_ASSIGNS
+LATCH_G = 'g_arr, g_my_arr, g_dirty, g_l_read_locked, ' + GHOST_ASSIGNS
 LATCH_SETUP = 'vf_L = self; vf_B = 0; vf_T = 0;'
 T_G = 'gt_dirty_trig, gt_dirty_act, gt_wrote_trig, gt_wrote_act, gt_set_trig, gt_order, gt_saw_active, gt_saw_act_locked, gt_saw_trig_any, gt_saw_trig_locked, gt_last_trig_locked_valid, gt_last_trig_locked, gt_last_act_locked_valid, gt_last_act_locked, gt_deactivated, ' + GHOST_ASSIGNS
 T_SETUP = 'vf_T = self; vf_L = 0; vf_B = 0;'
@@ -248,10 +260,10 @@ FN = {
                  ('C10', '!vf_exc', 'no exception')],
         assigns='*self, ' + LATCH_G,
         loops={0: dict(
-            invariant=[('C10', 'L_INV && !g_dirty && lck.owns && lck.m == &self->mtx && self->mtx.excl_me && vf_held == 1 && !vf_exc && '
+            invariant=[('C10', 'L_INV && !g_dirty && !g_l_read_locked && lck.owns && lck.m == &self->mtx && self->mtx.excl_me && vf_held == 1 && !vf_exc && '
                                'vf_n_block >= 0 && vf_n_block <= VF_BIG && vf_n_cvwait >= 0 && vf_n_cvwait <= VF_BIG && vf_n_mutex_ops >= 0 && vf_n_mutex_ops <= VF_BIG',
                         'locked re-check loop: invariant holds with the mutex held')],
-            assigns='self->counter_.v, self->mtx.excl_me, g_arr, vf_n_block, vf_n_cvwait, vf_n_mutex_ops')}),
+            assigns='self->counter_.v, self->mtx.excl_me, g_arr, g_l_read_locked, vf_n_block, vf_n_cvwait, vf_n_mutex_ops')}),
     r'Latch::arrive_and_wait': dict(
         props='C10', setup=LATCH_SETUP,
         requires=['vf_L == self && vf_B == 0 && vf_T == 0 && L_INV && L_IDLE && g_arr < VF_BIG - 2 && g_my_arr >= 0 && g_my_arr < 999 && !vf_exc'],
